@@ -178,7 +178,7 @@ pub fn minimize(mut case: Case, budget: &mut Budget, fails: &mut dyn FnMut(&Case
 fn zero_handle(op: &mut ClientOp) -> bool {
     use ClientOp::*;
     let h: Option<&mut u16> = match op {
-        Send { h, .. } | Call { h, .. } | CallDrop { h, .. } | SendRepoll { h, .. } | SendDrop { h, .. } | JoinStash { h } | JoinDiscard { h } | JoinLazyDetach { h } | RegisterHeld { h } | Ping { h } | Stop { h } | Halt { h } | TryStop { h } | TryHalt { h } | Restart { h } | AwaitClone { h }
+        Send { h, .. } | Call { h, .. } | CallDrop { h, .. } | SendRepoll { h, .. } | SendDrop { h, .. } | JoinStash { h } | JoinDiscard { h } | JoinLazyDetach { h } | JoinPollDrop { h } | RegisterHeld { h } | Ping { h } | Stop { h } | Halt { h } | TryStop { h } | TryHalt { h } | Restart { h } | AwaitClone { h }
         | Join { h } | Consume { h } | ConsumeSync { h } | Detach { h } | Clone { h } | Downgrade { h } | Upgrade { h } | ToSender { h }
         | ToCaller { h } | ToWeakSender { h } | ToWeakCaller { h } | ToAddr { h } | Drop { h } | Give { h, .. } | QueryStopped { h }
         | QueryRunning { h } | SubscribeFor { h, .. } | UnsubscribeFor { h, .. } => Some(h),
